@@ -734,6 +734,17 @@ func (s *DB) getHistoricRootsAndNodes(
 		if err != nil {
 			return nil, nil, fmt.Errorf("live links: %w", err)
 		}
+		// the walk reports what nodes link to; the root node is linked by the version
+		// object only (the version of a table without entries is deleted with its node)
+		if s.Size() > 0 {
+			root, err := s.crdt.MakeRoot(ctx)
+			if err != nil {
+				return nil, nil, fmt.Errorf("live root: %w", err)
+			}
+			if root.Link != nil {
+				delete(candidateBlocks, *root.Link)
+			}
+		}
 	}
 	nodes = make([]string, 0, len(candidateBlocks))
 	for k := range candidateBlocks {
